@@ -135,6 +135,7 @@ def dim_contract(a):
 
 # ----------------------------------------------------------------------------- values
 NOCONST = object()
+MAY_TAGS = frozenset(["batch"])   # may-properties: union at merges
 
 
 class ObjRef:
@@ -290,7 +291,7 @@ def join_vals(a: Optional[Val], b: Optional[Val]) -> Optional[Val]:
         const=a.const if same_const else NOCONST,
         kind=a.kind if a.kind == b.kind else ("unknown" if "none" not in (a.kind, b.kind) else (a.kind if b.kind == "none" else b.kind)),
         obj=a.obj if a.obj == b.obj else None,
-        tags=a.tags & b.tags,
+        tags=(a.tags & b.tags) | ((a.tags | b.tags) & MAY_TAGS),
         items=items,
         mapping=mapping,
         fn=a.fn if a.fn is b.fn else None,
